@@ -50,7 +50,8 @@ meta = {"seed": id_, "property": prop, "package_dir": pkgdir,
   "needs": notes.get("needs", "see README.md"),
   "confirmed": {"suite_passes_with_patch": suite, "demo_with_patch": dw, "demo_without_patch": dwo,
      "how": "scratch worktree of /repo HEAD: git apply patch.diff; go build ./... && go test -vet=off -count=1 ./... ; demo_test.go copied next to the package as zz_seed_demo_test.go and run with -run ^TestSeedDemo$ with and without the patch"},
-  "check": {"cmd": "./check %s -noevidence %s (against a scratch worktree with the patch applied, VERIF_REPO; same as git -C /repo apply patch.diff; ./check; git -C /repo checkout -- .)" % (prop, extra), "exit": int(rc), "violation_lines": int(nviol)},
+  "check": {"cmd": "./check %s -noevidence %s (against a scratch worktree with the patch applied, VERIF_REPO; same as git -C /repo apply patch.diff; ./check; git -C /repo checkout -- .)" % (prop, extra), "exit": int(rc), "violation_lines": int(nviol),
+     "incomplete": "INCOMPLETE" in open('/verif/seeded/%s/check_output.txt' % id_).read()},
   "ran": "tools/seed_eval.sh %s %s %s %s" % (src, id_, prop, extra)}
 json.dump(meta, open('/verif/seeded/%s/meta.json' % id_, 'w'), indent=1)
 EOPY
